@@ -156,8 +156,9 @@ CHECKS = {
             U("props/sys", "TestC12MaxJobs", (1500, 3), (20000, 4)),
             U("props/sys", "TestC12SystemReqs", (20000, 1), (300000, 2)),
             U("props/run", "TestE2Resources", (40, 6), (1200, 8)),
+            U("props/run", "TestE2Cluster", (3, 6), (60, 8)),
         ],
-        "floors": {"quick": {"semaphore": 5000, "maxjobs": 2000, "systemreqs": 10000, "e2-resources": 150, "jobs-overlapped": 40}},
+        "floors": {"quick": {"semaphore": 5000, "maxjobs": 2000, "systemreqs": 10000, "e2-resources": 150, "jobs-overlapped": 40, "e2-cluster": 10}},
     },
     "C04": {
         "level": "exploration",
